@@ -3,14 +3,17 @@
 // finite input sets.
 //
 // Phase A (in process): every value of every shape generator through
-//   encode/decode/JSON/size/hash (O-rt).
+//
+//	encode/decode/JSON/size/hash (O-rt).
+//
 // Phase B (in process): path independence of transaction and block identity.
 // Phase C (isolated worker processes, one per codec shard): decoder robustness
-//   over all short strings and all mutants of every seed encoding. Workers are
-//   separate processes because a decoder that loops, exhausts memory or
-//   overflows the stack cannot be stopped or survived inside the process; the
-//   parent attributes such a death to the input the worker had announced in a
-//   shared marker file, records the violation and restarts the worker behind it.
+//
+//	over all short strings and all mutants of every seed encoding. Workers are
+//	separate processes because a decoder that loops, exhausts memory or
+//	overflows the stack cannot be stopped or survived inside the process; the
+//	parent attributes such a death to the input the worker had announced in a
+//	shared marker file, records the violation and restarts the worker behind it.
 package c17
 
 import (
@@ -432,8 +435,12 @@ func seedsOf(c *codec, th bool) []seedT {
 		}
 		out = append(out, seedT{i, b})
 	}
+	senc := c.enc
+	if c.seedEnc != nil {
+		senc = c.seedEnc
+	}
 	for i, v := range c.gen(th) {
-		b, err := c.enc(v)
+		b, err := senc(v)
 		if err != nil {
 			continue
 		}
@@ -619,15 +626,15 @@ func safeDec(c *codec, b []byte) (v any, err error) {
 // ---- worker process --------------------------------------------------------------------
 
 type job struct {
-	Codec    string `json:"codec"`
-	Shard    int    `json:"shard"`
-	NShards  int    `json:"nshards"`
-	Start    int    `json:"start"`
-	Thorough bool   `json:"thorough"`
-	Dir      string `json:"dir"`
-	Deadline int64  `json:"deadline_unix"`
-	SkipBig  bool   `json:"skip_big"` // set after a hang/death: skip mutants that introduce long var-int prefixes
-	Replay   string `json:"replay_hex,omitempty"`
+	Codec    string     `json:"codec"`
+	Shard    int        `json:"shard"`
+	NShards  int        `json:"nshards"`
+	Start    int        `json:"start"`
+	Thorough bool       `json:"thorough"`
+	Dir      string     `json:"dir"`
+	Deadline int64      `json:"deadline_unix"`
+	SkipBig  bool       `json:"skip_big"` // set after a hang/death: skip mutants that introduce long var-int prefixes
+	Replay   string     `json:"replay_hex,omitempty"`
 	ReplayIC *inputCase `json:"-"`
 }
 
@@ -883,8 +890,8 @@ func procCPU(pid int) float64 {
 var hangCPUSeconds = 25.0
 
 const (
-	stallWallSec   = 900.0 // safety net if the worker does not even consume CPU
-	maxRestarts    = 4
+	stallWallSec = 900.0 // safety net if the worker does not even consume CPU
+	maxRestarts  = 4
 )
 
 // runShard runs one shard to completion, restarting the worker behind every
@@ -1014,7 +1021,12 @@ func runShard(r *vk.Run, j job, deadline time.Time) shardOutcome {
 			return so
 		}
 		so.findings = append(so.findings, finding{Key: key, Mode: mode, Codec: j.Codec, Kind: ic.kind, Oracle: oracle, Label: label, Input: clip(ic.input), Seed: clip(ic.seed), Offset: ic.off, Detail: detail,
-			Pkg: func() string { if c != nil { return c.pkg }; return "" }()})
+			Pkg: func() string {
+				if c != nil {
+					return c.pkg
+				}
+				return ""
+			}()})
 		so.res.Evals += idx + 1 - int64(j.Start)
 		so.res.Accepted += int64(binary.LittleEndian.Uint64(mk.m[markerSize-8:]))
 		fmt.Printf("worker %s shard %d/%d %s at input #%d (%s, offset %d): %s\n", j.Codec, j.Shard, j.NShards, oracle, idx, ic.kind, ic.off, short(hx(ic.input), 160))
@@ -1273,27 +1285,27 @@ func TestCheck(t *testing.T) {
 		outc[k] = v
 	}
 	r.Finish(map[string]any{
-		"evaluations":          int(evals.Get()) + pathEvals + int(cEvals),
-		"distinct_nontrivial":  int(nontrivial.Get()) + pathNontrivial + len(distinct),
-		"rule":                 "a case is one oracle evaluation: a generated value through encode/decode/JSON/size/hash, one (content, arrival path) pair, or one byte string fed to one decoder; non-trivial = a generated value with a distinct non-empty encoding, a path case whose content decodes on at least two paths, or a distinct byte string (per decoder) that the decoder ACCEPTS so that the re-encode/re-decode/hash/size oracle is evaluated (rejected strings only exercise the no-panic/allocation oracle)",
-		"codecs":               len(reg),
-		"codec_names":          codecNames,
-		"round_trip_values":    int(evals.Get()),
-		"path_cases":           pathEvals,
-		"decoder_inputs":       int(cEvals),
-		"decoder_accepted":     int(cAccepted),
-		"decoder_outcomes":     outc,
-		"per_codec":            perCodecOut,
-		"worker_shards":        len(jobs),
-		"worker_restarts":      restarts,
-		"inputs_skipped_after_a_finding": skipped,
+		"evaluations":                        int(evals.Get()) + pathEvals + int(cEvals),
+		"distinct_nontrivial":                int(nontrivial.Get()) + pathNontrivial + len(distinct),
+		"rule":                               "a case is one oracle evaluation: a generated value through encode/decode/JSON/size/hash, one (content, arrival path) pair, or one byte string fed to one decoder; non-trivial = a generated value with a distinct non-empty encoding, a path case whose content decodes on at least two paths, or a distinct byte string (per decoder) that the decoder ACCEPTS so that the re-encode/re-decode/hash/size oracle is evaluated (rejected strings only exercise the no-panic/allocation oracle)",
+		"codecs":                             len(reg),
+		"codec_names":                        codecNames,
+		"round_trip_values":                  int(evals.Get()),
+		"path_cases":                         pathEvals,
+		"decoder_inputs":                     int(cEvals),
+		"decoder_accepted":                   int(cAccepted),
+		"decoder_outcomes":                   outc,
+		"per_codec":                          perCodecOut,
+		"worker_shards":                      len(jobs),
+		"worker_restarts":                    restarts,
+		"inputs_skipped_after_a_finding":     skipped,
 		"max_single_decode_allocation_bytes": maxAlloc,
 		"max_single_decode_allocation_where": maxAllocWhere,
 		"slowest_single_input_ms":            maxNs / 1e6,
 		"slowest_single_input_where":         maxNsWhere,
-		"allocation_ceiling":   fmt.Sprintf("%d + %d*len(input) bytes", allocC1, allocC2),
-		"substitution_bytes":   vk2(th, len(boundaryBytes), 256),
-		"insertion_bytes":      len(boundaryBytes),
+		"allocation_ceiling":                 fmt.Sprintf("%d + %d*len(input) bytes", allocC1, allocC2),
+		"substitution_bytes":                 vk2(th, len(boundaryBytes), 256),
+		"insertion_bytes":                    len(boundaryBytes),
 	}, []string{
 		"field alphabets: every scalar from {0,1,max}, list lengths {0,1,2,max}, every union variant; composite types (transaction, block, messages, execution results, manifest) take the product over reduced lists of component shapes rather than over all component values",
 		"seeds for mutation are the distinct encodings of generated values not longer than 200 (quick) / 420 (thorough) bytes unless a codec states another bound; longer values take part in the round-trip phase only",
